@@ -1,6 +1,7 @@
 package c05
 
 import (
+	"math"
 	"math/big"
 	"sort"
 )
@@ -133,7 +134,7 @@ func (p *mpool) accrue(h int64) (rel map[string]*big.Int, short bool) {
 	return rel, false
 }
 
-// endAfterCreate = start + min_i floor(total_i / rate_i).
+// endFor = base + min_i floor(avail_i / rate_i); ok=false when that does not fit an int64 height.
 func endFor(base int64, avail, rate []*big.Int) (int64, bool) {
 	var min *big.Int
 	for i := range avail {
@@ -146,7 +147,7 @@ func endFor(base int64, avail, rate []*big.Int) (int64, bool) {
 		return 0, false
 	}
 	e := min.Int64()
-	if e > (1<<62)-base {
+	if e > math.MaxInt64-base {
 		return 0, false
 	}
 	return base + e, true
